@@ -1,14 +1,226 @@
-(* C16 -- template application edits exactly what the template names.  Statements only; proofs in Proofs.ReactorProofs. *)
+(* C16 -- template application edits exactly what the template names.  Statements only; proofs in Proofs.ReactorProofs.
+   Model.Reactor mirrors chython/reactor/base.py (BaseReactor._get_deleted as it is after fix: b90326c, the structural
+   part of BaseReactor._patcher) and chython/reactor/reactor.py:fix_mapping_overlap. *)
 From Coq Require Import ZArith List Bool.
 From Model Require Import PyBase Graph Reactor.
 From Proofs Require Import ReactorProofs.
 Import ListNotations.
 Open Scope Z_scope.
 
-Theorem C16_get_deleted_fixed_spec : forall g mapping to_del,
+(* ---------- _get_deleted ---------- *)
+(* x is returned iff it is a matched-to-delete atom, or it lies in a connected piece of the graph minus the deleted
+   atoms that hung on a deleted atom and holds no kept matched atom; the call never raises on well-formed input *)
+Theorem C16_get_deleted_spec : forall g mapping to_del,
   sym_graph g = true ->
   (forall p, In p to_del -> exists v, zget mapping p = Some v /\ In v (keys g)) ->
-  exists r, get_deleted_fixed g mapping to_del = Ok r /\
+  exists r, get_deleted g mapping to_del = Ok r /\
             forall x, In x r <-> deleted_spec g (image mapping to_del) (kept mapping to_del) x.
-Proof. exact get_deleted_fixed_spec. Qed.
-Print Assumptions C16_get_deleted_fixed_spec.
+Proof. exact get_deleted_spec. Qed.
+Print Assumptions C16_get_deleted_spec.
+
+(* DESIGN Appendix A form (connected structure, something to delete) *)
+Theorem C16_get_deleted_spec_connected : forall g mapping to_del,
+  sym_graph g = true -> connected g ->
+  (forall p, In p to_del -> exists v, zget mapping p = Some v /\ In v (keys g)) ->
+  to_del <> [] ->
+  exists r, get_deleted g mapping to_del = Ok r /\
+    forall x, In x (keys g) ->
+      (In x r <-> In x (image mapping to_del) \/
+                  (~ In x (image mapping to_del) /\
+                   forall y, reach_av g (image mapping to_del) x y -> ~ In y (kept mapping to_del))).
+Proof. exact get_deleted_spec_connected. Qed.
+Print Assumptions C16_get_deleted_spec_connected.
+
+(* on molecules of Model.Graph: well-formedness gives the symmetry *)
+Theorem C16_get_deleted_spec_mol : forall m mapping to_del,
+  wf_mol m = true ->
+  (forall p, In p to_del -> exists v, zget mapping p = Some v /\ In v (keys (m_adj m))) ->
+  exists r, get_deleted (graph_of m) mapping to_del = Ok r /\
+            forall x, In x r <-> deleted_spec (graph_of m) (image mapping to_del) (kept mapping to_del) x.
+Proof. exact get_deleted_spec_mol. Qed.
+Print Assumptions C16_get_deleted_spec_mol.
+
+(* the two sets the loops leave behind *)
+Theorem C16_get_deleted_sets_spec : forall g mapping to_del,
+  sym_graph g = true ->
+  (forall p, In p to_del -> exists v, zget mapping p = Some v /\ In v (keys g)) ->
+  exists delete keep, get_deleted_sets g mapping to_del = Ok (delete, keep) /\
+    (forall x, In x delete <-> detached g (image mapping to_del) (kept mapping to_del) x) /\
+    (forall x, In x keep -> ~ In x (image mapping to_del) /\ ~ In x (kept mapping to_del) /\
+                            attached g (image mapping to_del) x /\
+                            exists k, In k (kept mapping to_del) /\ reach_av g (image mapping to_del) x k).
+Proof. exact get_deleted_sets_spec. Qed.
+Print Assumptions C16_get_deleted_sets_spec.
+
+(* every matched-and-unkept atom is removed, no kept matched atom (masked ones included) ever is *)
+Theorem C16_get_deleted_keeps_kept : forall g mapping to_del r,
+  sym_graph g = true ->
+  (forall p, In p to_del -> exists v, zget mapping p = Some v /\ In v (keys g)) ->
+  get_deleted g mapping to_del = Ok r ->
+  (forall x, In x (image mapping to_del) -> In x r) /\ (forall x, In x (kept mapping to_del) -> ~ In x r).
+Proof. exact get_deleted_keeps_kept. Qed.
+Print Assumptions C16_get_deleted_keeps_kept.
+
+(* the result does not depend on the iteration order of the Python set to_delete *)
+Theorem C16_get_deleted_order_independent : forall g mapping to_del to_del' r r',
+  sym_graph g = true ->
+  (forall p, In p to_del -> exists v, zget mapping p = Some v /\ In v (keys g)) ->
+  (forall p, In p to_del <-> In p to_del') ->
+  get_deleted g mapping to_del = Ok r -> get_deleted g mapping to_del' = Ok r' ->
+  forall x, In x r <-> In x r'.
+Proof. exact get_deleted_order_independent. Qed.
+Print Assumptions C16_get_deleted_order_independent.
+
+(* non-vacuity: the two inputs on which the code before the fix was wrong (bridged ring; two adjacent deleted atoms) *)
+Theorem C16_get_deleted_on_witnesses :
+  sym_graph wit_g = true /\
+  (forall p, In p wit_to_del -> exists v, zget wit_mapping p = Some v /\ In v (keys wit_g)) /\
+  get_deleted wit_g wit_mapping wit_to_del = Ok [2] /\
+  get_deleted_sets wit_g wit_mapping wit_to_del = Ok ([], [3; 4; 1]) /\
+  sym_graph wit2_g = true /\
+  (forall p, In p wit2_to_del -> exists v, zget wit2_mapping p = Some v /\ In v (keys wit2_g)) /\
+  sorted_res (get_deleted wit2_g wit2_mapping wit2_to_del) = Ok [2; 3; 4; 6] /\
+  get_deleted_sets wit2_g wit2_mapping wit2_to_del = Ok ([6; 3], [5]).
+Proof. exact get_deleted_on_witnesses. Qed.
+Print Assumptions C16_get_deleted_on_witnesses.
+
+Theorem C16_witnesses_connected : connected wit_g /\ connected wit2_g.
+Proof. exact witnesses_connected. Qed.
+Print Assumptions C16_witnesses_connected.
+
+Theorem C16_deleted_spec_on_witness :
+  deleted_spec wit2_g (image wit2_mapping wit2_to_del) (kept wit2_mapping wit2_to_del) 6 /\
+  ~ deleted_spec wit2_g (image wit2_mapping wit2_to_del) (kept wit2_mapping wit2_to_del) 5.
+Proof. exact deleted_spec_on_witness. Qed.
+Print Assumptions C16_deleted_spec_on_witness.
+
+(* ---------- structural part of _patcher (any to_delete set `del`) ---------- *)
+Theorem C16_patcher_frame : forall g mapping tpl del new mp',
+  patcher g mapping tpl del = Ok (new, mp') ->
+  wf_mol g = true -> (forall x, In x (ids g) -> 0 < x) ->
+  (* atoms the template does not name and that are not deleted keep element, isotope, charge, radical, hydrogens *)
+  (forall x a, atom_of g x = Some a -> ~ named tpl mp' x -> ~ In x del -> atom_of new x = Some (plain_atom a)) /\
+  (* bonds between surviving atoms, at least one of them not named by the template, are kept with their order *)
+  (forall x y, In x (ids g) -> In y (ids g) -> ~ In x del -> ~ In y del -> ~ (named tpl mp' x /\ named tpl mp' y) ->
+               bond_of new x y = option_map plain (bond_of g x y)) /\
+  (* and no other bond touches an atom the template does not name *)
+  (forall x y b, bond_of new x y = Some b -> ~ (named tpl mp' x /\ named tpl mp' y) ->
+                 exists b0, bond_of g x y = Some b0 /\ b = plain b0 /\ ~ In x del /\ ~ In y del) /\
+  (* the atoms of the product: the named ones and the surviving ones; numbers are unique *)
+  (forall x, In x (ids new) <-> named tpl mp' x \/ (In x (ids g) /\ ~ In x del)) /\
+  NoDup (ids new) /\ keys (m_adj new) = ids new.
+Proof. exact patcher_frame. Qed.
+Print Assumptions C16_patcher_frame.
+
+Theorem C16_patcher_fresh : forall g mapping tpl del new mp',
+  patcher g mapping tpl del = Ok (new, mp') -> (forall x, In x (ids g) -> 0 < x) ->
+  (* the match is extended, never changed *)
+  (forall n m, truthy_get mapping n = Some m -> truthy_get mp' n = Some m) /\
+  (* every replacement atom has an image; an image that is not from the match is greater than every number in use *)
+  (forall n, In n (keys (t_atoms tpl)) -> exists m, truthy_get mp' n = Some m) /\
+  (forall n m, truthy_get mp' n = Some m -> truthy_get mapping n = Some m \/
+               (In n (keys (t_atoms tpl)) /\ forall x, In x (ids g) -> x < m)) /\
+  (* different new atoms get different numbers *)
+  (forall n1 n2 m, truthy_get mapping n1 = None -> truthy_get mapping n2 = None ->
+                   truthy_get mp' n1 = Some m -> truthy_get mp' n2 = Some m -> n1 = n2).
+Proof. exact patcher_fresh. Qed.
+Print Assumptions C16_patcher_fresh.
+
+(* replacement atoms appear with the requested element / isotope / charge / radical state (any-atoms keep element and
+   isotope of the match; hydrogens of new atoms as requested, of existing ones left to calc_implicit) *)
+Theorem C16_patcher_named_atoms : forall g mapping tpl del new mp',
+  patcher g mapping tpl del = Ok (new, mp') ->
+  (forall x, In x (ids g) -> 0 < x) ->
+  NoDup (keys (t_atoms tpl)) ->
+  (forall n1 n2 m, In n1 (keys (t_atoms tpl)) -> In n2 (keys (t_atoms tpl)) ->
+                   truthy_get mapping n1 = Some m -> truthy_get mapping n2 = Some m -> n1 = n2) ->
+  (forall n m, In n (keys (t_atoms tpl)) -> truthy_get mapping n = Some m -> In m (ids g)) ->
+  forall n ra, In (n, ra) (t_atoms tpl) ->
+    exists m, truthy_get mp' n = Some m /\
+      ((truthy_get mapping n = Some m /\ exists sa, atom_of g m = Some sa /\ atom_of new m = Some (built ra sa false)) \/
+       (truthy_get mapping n = None /\ (forall x, In x (ids g) -> x < m) /\ atom_of new m = Some (built ra dummy_atom true))).
+Proof. exact patcher_named_atoms. Qed.
+Print Assumptions C16_patcher_named_atoms.
+
+(* replacement bonds appear with the requested order, and no other bond joins two replacement atoms *)
+Theorem C16_patcher_named_bonds : forall g mapping tpl del new mp',
+  patcher g mapping tpl del = Ok (new, mp') ->
+  (forall x, In x (ids g) -> 0 < x) ->
+  wf_template tpl = true ->
+  (forall n1 n2 m, In n1 (keys (t_atoms tpl)) -> In n2 (keys (t_atoms tpl)) ->
+                   truthy_get mapping n1 = Some m -> truthy_get mapping n2 = Some m -> n1 = n2) ->
+  (forall n m, In n (keys (t_atoms tpl)) -> truthy_get mapping n = Some m -> In m (ids g)) ->
+  (forall n0 m0 rb x y, get2 (t_bonds tpl) n0 m0 = Some rb -> truthy_get mp' n0 = Some x -> truthy_get mp' m0 = Some y ->
+                        bond_of new x y = Some (plain rb)) /\
+  (forall x y b, named tpl mp' x -> named tpl mp' y -> bond_of new x y = Some b ->
+                 exists n0 m0 rb, get2 (t_bonds tpl) n0 m0 = Some rb /\ truthy_get mp' n0 = Some x /\
+                                  truthy_get mp' m0 = Some y /\ b = plain rb).
+Proof. exact patcher_named_bonds. Qed.
+Print Assumptions C16_patcher_named_bonds.
+
+(* a template whose replacement repeats what it matched (and deletes nothing) returns the input structure *)
+Theorem C16_identity_template : forall g mapping tpl new mp',
+  patcher g mapping tpl [] = Ok (new, mp') ->
+  wf_mol g = true -> (forall x, In x (ids g) -> 0 < x) -> wf_template tpl = true ->
+  (forall n1 n2 m, In n1 (keys (t_atoms tpl)) -> In n2 (keys (t_atoms tpl)) ->
+                   truthy_get mapping n1 = Some m -> truthy_get mapping n2 = Some m -> n1 = n2) ->
+  (forall n ra, In (n, ra) (t_atoms tpl) ->
+                exists m sa, truthy_get mapping n = Some m /\ atom_of g m = Some sa /\ same_request ra sa) ->
+  (forall n0 m0 x y, In n0 (keys (t_atoms tpl)) -> In m0 (keys (t_atoms tpl)) ->
+                     truthy_get mapping n0 = Some x -> truthy_get mapping m0 = Some y ->
+                     option_map b_ord (get2 (t_bonds tpl) n0 m0) = option_map b_ord (bond_of g x y)) ->
+  (forall n, truthy_get mp' n = truthy_get mapping n) /\
+  (forall x, option_map core (atom_of new x) = option_map core (atom_of g x)) /\
+  (forall x, ~ named tpl mp' x -> atom_of new x = option_map plain_atom (atom_of g x)) /\
+  (forall x y, option_map b_ord (bond_of new x y) = option_map b_ord (bond_of g x y)).
+Proof. exact identity_template. Qed.
+Print Assumptions C16_identity_template.
+
+(* ---------- _patcher as it is called: to_delete = _get_deleted(structure, mapping) ---------- *)
+Theorem C16_template_application_atoms : forall g mapping to_del tpl new mp',
+  patcher_with get_deleted g mapping to_del tpl = Ok (new, mp') ->
+  wf_mol g = true -> (forall x, In x (ids g) -> 0 < x) ->
+  (forall p, In p to_del -> exists v, zget mapping p = Some v /\ In v (ids g)) ->
+  forall x, In x (ids new) <->
+            named tpl mp' x \/
+            (In x (ids g) /\ ~ deleted_spec (graph_of g) (image mapping to_del) (kept mapping to_del) x).
+Proof. exact template_application_atoms. Qed.
+Print Assumptions C16_template_application_atoms.
+
+Theorem C16_template_application_frame : forall g mapping to_del tpl new mp',
+  patcher_with get_deleted g mapping to_del tpl = Ok (new, mp') ->
+  wf_mol g = true -> (forall x, In x (ids g) -> 0 < x) ->
+  (forall p, In p to_del -> exists v, zget mapping p = Some v /\ In v (ids g)) ->
+  let gone := deleted_spec (graph_of g) (image mapping to_del) (kept mapping to_del) in
+  (forall x a, atom_of g x = Some a -> ~ named tpl mp' x -> ~ gone x -> atom_of new x = Some (plain_atom a)) /\
+  (forall x y, In x (ids g) -> In y (ids g) -> ~ gone x -> ~ gone y -> ~ (named tpl mp' x /\ named tpl mp' y) ->
+               bond_of new x y = option_map plain (bond_of g x y)) /\
+  (forall x y b, bond_of new x y = Some b -> ~ (named tpl mp' x /\ named tpl mp' y) ->
+                 exists b0, bond_of g x y = Some b0 /\ b = plain b0 /\ ~ gone x /\ ~ gone y) /\
+  NoDup (ids new) /\ keys (m_adj new) = ids new.
+Proof. exact template_application_frame. Qed.
+Print Assumptions C16_template_application_frame.
+
+(* non-vacuity: ethyl acetate, [C:1](=[O:2])[O:3][C:4] >> [A:1](=[A:2])[A-:3] + new [Na+:5]; the ethyl group goes *)
+Theorem C16_patcher_example :
+  wf_mol ex_mol = true /\ wf_template ex_tpl = true /\ (forall x, In x (ids ex_mol) -> 0 < x) /\
+  exists new mp', patcher_with get_deleted ex_mol ex_mapping [4] ex_tpl = Ok (new, mp') /\
+                  ids new = [2; 3; 4; 7; 1] /\ mp' = ex_mapping ++ [(5, 7)] /\
+                  bond_of new 2 4 = Some (mkBond 1 None) /\ bond_of new 4 5 = None /\
+                  atom_of new 4 = Some (mkAtom 8 None (-1) false None None).
+Proof. exact patcher_example. Qed.
+Print Assumptions C16_patcher_example.
+
+(* ---------- fix_mapping_overlap ---------- *)
+(* the structures handed to the reactor never share an atom number; sizes and uniqueness inside a structure are kept *)
+Theorem C16_overlap_fix_disjoint : forall structures out,
+  fix_mapping_overlap structures = Ok out -> Forall (@NoDup Z) structures ->
+  all_disjoint out /\ Forall2 (fun s o => length o = length s /\ NoDup o) structures out.
+Proof. exact overlap_fix_disjoint. Qed.
+Print Assumptions C16_overlap_fix_disjoint.
+
+(* structures that do not collide are returned unchanged *)
+Theorem C16_overlap_fix_identity : forall structures,
+  all_disjoint structures -> fix_mapping_overlap structures = Ok structures.
+Proof. exact overlap_fix_identity. Qed.
+Print Assumptions C16_overlap_fix_identity.
